@@ -251,6 +251,70 @@ def r7_2(F, R):
     R.floor("R7.2", "closer cells", n, 12)
 
 
+def r7_2b(F, R):
+    R.rule("R7.2b", "\\ifcase operand table over sign classes: the immediate selection (push Switch, read nothing) happens iff n = 0; n < 0 and n > 0 enter the "
+                    "skipping loop (a negative operand can only end in \\else); sound because the operand is only compared with 0 before the loop (checked)")
+    fn = _one(F, MOD + "if_case_primitive_fn")
+    loc = "%s:%d" % (fn.file, fn.line)
+    for n in (-2, -1, 0, 1, 2):
+        model = lambda ed, a, t, v=n: ("agg", "core::result::Result", [C(v)], 0, "Ok")
+        e = EDT(F, fn, interesting_calls=["push_branch", "TokenStream::next_or_err"], call_models={"texlang::parse::Parsable::parse": model}, max_paths=400)
+        try:
+            paths = e.run()
+        except Exception:
+            raise AnchorError("R7.2b: if_case_primitive_fn could not be specialised")
+        immediate = set()
+        for p in paths:
+            names = [ev[1] for ev in p.events if ev[0] == "call"]
+            first = names[0] if names else None
+            immediate.add(first == "push_branch" and p.end[0] == "return")
+        want = {n == 0}
+        inst = "ifcase(n%s)" % ("=%d" % n)
+        if immediate == want:
+            R.ok("R7.2b", inst, "immediate case 0" if n == 0 else "enters the skip loop", loc, how="edt")
+        else:
+            R.violation("R7.2b", inst, "\\ifcase with operand %d %s; TeX selects case 0 immediately only for 0 and skips otherwise (a negative operand selects \\else)" % (
+                n, "selects case 0 immediately" if True in immediate else "does not select case 0"), loc)
+
+
+def r7_6(F, R):
+    from ..cfg import Defs
+    from .common import recv_fields
+    R.rule("R7.6", "token-buffer pool hygiene (the optimized \\expandafter replays its whole checked-out buffer): every function that returns a buffer to "
+                   "Internal.token_buffers clears it first, or else every function that checks one out clears it — one regime, all siblings")
+    pushers, poppers = [], []
+    for fn in F.fns.values():
+        if fn.crate != "texlang.lib":
+            continue
+        defs = None
+        for bi, t in fn.calls():
+            n = strip_generics(callee_name(t) or "")
+            if n.endswith("BinaryHeap::push") or n.endswith("BinaryHeap::pop"):
+                defs = defs or Defs(fn)
+                base, fp = recv_fields(fn, defs, t)
+                if fp and fp[-1] == "token_buffers":
+                    (pushers if n.endswith("push") else poppers).append((fn, bi))
+    R.floor("R7.6", "functions returning a buffer to the pool", len(pushers), 3)
+    R.floor("R7.6", "functions checking a buffer out", len(poppers), 2)
+
+    def clears(fn):
+        return [bi for bi, t in fn.calls() if strip_generics(callee_name(t) or "").endswith("Vec::clear")]
+    push_ok = []
+    for fn, bi in pushers:
+        dom = dominators(fn)
+        push_ok.append(any(c in dom[bi] for c in clears(fn)))
+    pop_ok = []
+    for fn, bi in poppers:
+        path = find_path(fn, [fn.blocks[bi]["t"]["t"]], lambda b: is_return(fn, b), blocked=clears(fn)) if fn.blocks[bi]["t"].get("t") is not None else None
+        pop_ok.append(path is None)
+    if all(push_ok) or all(pop_ok):
+        R.ok("R7.6", "pool", "%d returners (%s clear), %d checkouts (%s clear)" % (len(pushers), sum(push_ok), len(poppers), sum(pop_ok)), None, how="sibling")
+    else:
+        bad = [strip_generics(f.name) for (f, bi), okk in zip(pushers, push_ok) if not okk] + [strip_generics(f.name) for (f, bi), okk in zip(poppers, pop_ok) if not okk]
+        R.violation("R7.6", "pool", "neither every return nor every checkout of a token buffer clears it (not clearing: %s): a stale buffer can be handed to a user that "
+                    "assumes it is empty, e.g. the optimized \\expandafter replays the stale tokens" % bad, None)
+
+
 def r7_3(F, R):
     R.rule("R7.3", "branch-stack discipline: every closer pops exactly once on every path; true_case pushes True; if_case/false_case push exactly once on "
                    "every normal exit except the depth<0 exit (matching \\fi consumed); the if-command closure calls evaluate then exactly one of true_case/false_case")
@@ -500,6 +564,8 @@ def r7_5(F, R):
 def run(F, R, tier):
     r7_1(F, R)
     r7_2(F, R)
+    r7_2b(F, R)
+    r7_6(F, R)
     r7_3(F, R)
     r7_4(F, R, tier)
     r7_5(F, R)
